@@ -155,6 +155,8 @@ def kfl_bad(cfg):
   why = []
   if cfg['lattice_sizes'] < 2:
     why.append('size<2')
+  if any(m in (-1, 'decreasing') for m in (cfg.get('monotonicities') or [])):
+    why.append('decreasing-kfl-monotonicity')     # only 'increasing' / 'none' are supported (as for Lattice)
   lo, hi = cfg.get('output_min'), cfg.get('output_max')
   if lo is not None and hi is not None and lo > hi:
     why.append('output_min>output_max')
@@ -339,9 +341,14 @@ class SynonymCase(Case):
     kind = cfg['kind']
     cl = []
     outs = []
+    rejected = []
     for kw in cfg['variants']:
       weights = []
-      layer, shape = _construct(kind, kw, weights)
+      try:
+        layer, shape = _construct(kind, kw, weights)
+      except (ValueError, Rejected) as e:
+        rejected.append(str(e)[:60])
+        continue
       res = []
       for v in layer.weights:
         cons = getattr(v, 'constraint', None)
@@ -350,6 +357,11 @@ class SynonymCase(Case):
       x = tfc.sym([1] + [s for s in shape[1:]], 'x')
       res.append(layer.call(x))
       outs.append(res)
+    # synonymous spellings are either all rejected or all accepted
+    cl.append(('synonyms-are-accepted-or-rejected-together [%d of %d rejected]' % (len(rejected), len(cfg['variants'])),
+               B.const(len(rejected) in (0, len(cfg['variants'])))))
+    if not outs:
+      return cl
     ref = outs[0]
     for k, o in enumerate(outs[1:], 1):
       cl.append(('same-number-of-results[%d]' % k, B.const(len(o) == len(ref))))
@@ -582,6 +594,24 @@ def configs(tier, rng):
         for terms in (1, 2):
           jobs.append(('config', dict(kind='kfl', kw=dict(lattice_sizes=L, monotonicities=monos, output_min=lo,
                                                         output_max=hi, num_terms=terms, units=1))))
+  # ---- single-fault configurations: a valid base with exactly ONE listed defect (a second defect must not
+  # be what gets the configuration rejected)
+  base = dict(lattice_sizes=[3, 3], monotonicities=[1, 0], units=1)
+  for fault in (dict(monotonicities=[-1, 0]), dict(monotonicities=[0, -1]), dict(monotonicities=['decreasing', 'none']),
+                dict(lattice_sizes=[3, 1]), dict(unimodalities=[1, 0]), dict(lattice_sizes=[3, 2], unimodalities=[0, 1]),
+                dict(edgeworth_trusts=[[1, 0, 1]]), dict(trapezoid_trusts=[[1, 0, 1]]),
+                dict(monotonicities=[1, 1], edgeworth_trusts=[[0, 1, 1], [1, 0, 1]]),
+                dict(monotonic_dominances=[[0, 1]]), dict(range_dominances=[[0, 1]]),
+                dict(output_min=1.0, output_max=0.0), dict(monotonicities=[1, 0, 0])):
+    jobs.append(('config', dict(kind='lattice', kw=dict(base, **fault))))
+  for fault in (dict(monotonicities=[-1, 0]), dict(monotonicities=['decreasing', 0]), dict(lattice_sizes=1),
+                dict(output_min=1.0, output_max=0.0)):
+    jobs.append(('config', dict(kind='kfl', kw=dict(dict(lattice_sizes=2, monotonicities=[1, 0], num_terms=2, units=1), **fault))))
+  jobs.append(('synonym', dict(kind='lattice', variants=[
+      dict(lattice_sizes=[2, 3], monotonicities=[-1, 0]), dict(lattice_sizes=[2, 3], monotonicities=['decreasing', 'none']),
+      dict(lattice_sizes=[2, 3], monotonicities=['decreasing', 0]), dict(lattice_sizes=[2, 3], monotonicities=[-1, 'none'])])))
+  jobs.append(('synonym', dict(kind='kfl', variants=[
+      dict(lattice_sizes=2, monotonicities=[-1, 0], units=1), dict(lattice_sizes=2, monotonicities=['decreasing', 'none'], units=1)])))
   # ---- synonyms
   jobs.append(('synonym', dict(kind='lattice', variants=[
       dict(lattice_sizes=[2, 3], monotonicities=[1, 0], unimodalities=[0, 1], edgeworth_trusts=[[0, 1, 1]], output_min=0.0, output_max=1.0),
